@@ -49,7 +49,7 @@ def check_case(res, hist, pr, req, tag, g, lean_out, nontrivial):
     f = E.hex2f
     n = len(frags)
     hist["fragments"] += n
-    raw = {(r["I"], r["J"]): r for r in g["raw"]}
+    raw = {(r["I"], r["J"]): r for r in g.get("raw") or []}
     # ---- hypotheses of the theorems, checked on the real measurement --------------------------------------------------------
     for (i, j), r in raw.items():
         if i < j:
@@ -207,6 +207,26 @@ def run(tier, seed, replay=None):
         check_case(res, hist, pr, req, tag, g, lean[k] if lean else None, nontrivial)
         k += 1
     hist["projects"] = len(projects)
+    # ---- third round: the SAME oracles on the batched comparison path (the path the service takes above 50 fragments; here the threshold is lowered so that
+    # small projects take it) — a pair must be justified whichever path produced it ----------------------------------------------------------------------
+    cases3 = []
+    for (pr, _, tag), g in list(zip(cases, first))[: (40 if tier == "quick" else 400)]:
+        if "frags" not in g or len(g["frags"]) < 4:
+            continue
+        sims = sorted(set(E.hex2f(r["Sim"]) for r in g["raw"] if r["OK"]))
+        req3 = config_from(rng, sims, sorted(set(x["Size"] for x in g["frags"])), sorted(set(x["Lines"] for x in g["frags"])))
+        if rng.random() < 0.7 and len(sims) > 1:
+            # reporting threshold strictly inside the band structure: above the lowest type threshold
+            req3["Sim"] = rng.choice([x for x in sims if x > req3["T4"]] or [req3["T1"]])
+        cases3.append((pr, req3, tag.split("/")[0] + "/batched"))
+    third = C.harness_batch("clones", [{"Files": pr.sources(), "Req": req, "Raw": False, "BatchThreshold": 2, "BatchSizes": []} for pr, req, _ in cases3], jobs=14)
+    hist["batched_path_configs"] = 0
+    for (pr, req, tag), g in zip(cases3, third):
+        if "error" in g or "frags" not in g:
+            continue
+        hist["configs"] += 1
+        hist["batched_path_configs"] += 1
+        check_case(res, hist, pr, req, tag, g, None, nontrivial)
     # ---- order of files / fragments ----------------------------------------------------------------------------------------
     perm_cases, perm_ref = [], []
     for (pr, req, tag), g in allc[: (60 if tier == "quick" else 600)]:
